@@ -302,7 +302,7 @@ static std::vector<int64_t> disp_pool(int N) {
 }
 
 // memory shapes for a ModRM memory operand (mandatory special rows first, then mixed rows)
-static std::vector<MemShape> mem_grid(int mode, const std::string& vsib, int N, size_t want) {
+static std::vector<MemShape> mem_grid(int mode, const std::string& vsib, int N, size_t want, size_t rot) {
   std::vector<MemShape> g;
   std::string nat = mode == 64 ? "gpq" : "gpd";
   std::string alt = mode == 64 ? "gpd" : "gpw";
@@ -365,7 +365,7 @@ static std::vector<MemShape> mem_grid(int mode, const std::string& vsib, int N, 
     // keep the special rows with priority but thin them deterministically
     std::vector<MemShape> h;
     double step = double(g.size()) / double(want);
-    for (size_t j = 0; j < want; j++) h.push_back(g[size_t(j * step)]);
+    for (size_t j = 0; j < want; j++) h.push_back(g[(size_t(j * step) + rot) % g.size()]);      // rotate per form: every row is used by some form
     return h;
   }
   return g;
@@ -415,7 +415,7 @@ static void sweep_form(const Form& f, Mode& md, FILE* out, size_t rot) {
     if (hasMem) {
       const FOp& fo = f.ops[memJ];
       modrmMem = fo.fld == "rm"; moffMem = fo.fld == "moff"; implMem = !fo.memreg.empty();
-      if (modrmMem) { grid = mem_grid(mode, fo.vsib, fo.msz > 0 ? fo.msz : (f.esz > 0 ? f.esz : 4), memWant); rounds = grid.size(); }
+      if (modrmMem) { grid = mem_grid(mode, fo.vsib, fo.msz > 0 ? fo.msz : (f.esz > 0 ? f.esz : 4), memWant, rot); rounds = grid.size(); }
       else rounds = f.ok ? 8 : 2;
     }
     if (hasLabel) rounds = f.ok ? (g_thorough ? 40 : 16) : 2;
